@@ -218,3 +218,17 @@ PROPS["C05"] = dict(
               "raw bytes, grammar-generated documents with random whitespace and trailing commas, trailing data, every proper prefix, "
               "single-edit mutants, deep nesting; checked against encoding/json and the Lean reference reader",
 )
+
+PROPS["C15"] = dict(
+    level="proof",
+    lean_module="RefmtProofs.Props.C15",
+    theorems=[],
+    streams=[dict(name="rdops", gen="rdops"), dict(name="sched", gen="sched")],
+    title="decoding does not depend on how the reader delivers bytes",
+    claim="(work in progress)",
+    rule_text="rdops: random and exhaustive-small sequences of raw reader operations (Readn1/Unreadn1/Readn/Readnzc) on "
+              "shared.NewReader over scheduling io.Readers (all splits of 3 bytes with empty reads at every position, random schedules, "
+              "EOF-with-data), compared with the scheduled-reader model (M) and the abstract cursor (S). sched: documents of both formats "
+              "under every split (<= 10 / 14 bytes), one-byte reads with up to 3 empty reads at every position, random schedules, "
+              "compared with one-shot decoding (O) and the cursor-based decoder model (M); non-trivial = more than one read/step",
+)
